@@ -570,6 +570,55 @@ def check_modexp(fx, rep):
             rep.violation('R4-modexp', name, '%s: %s' % (name, bad), f.where())
         else:
             rep.ok('R4-modexp', name, '%d grid cells over %d paths' % (cells, len(rs)))
+    # run_inner: the price charged is calc_gas(base_len, exp_len, mod_len, exponent head), read from
+    # the three length words at offsets 0 / 32 / 64; the flat minimum is charged only when both the
+    # base and the modulus are empty (then the formula gives 0 resp. the Berlin minimum anyway)
+    f = fx.fns.get(M + 'run_inner')
+    if f is None:
+        rep.undecided('R4-modexp', 'run_inner', 'not found')
+    else:
+        rep.fn(f)
+        import c15
+        problems = []
+        n_formula = n_min = 0
+        try:
+            paths = paths_of(fx, f)
+        except Budget:
+            paths = []
+            problems.append('path budget')
+
+        def length_word(txt, off):
+            return 'right_pad_with_offset(' in txt and txt.rstrip(')').endswith(', %d' % off) or (', %d))))' % off) in txt
+
+        for r in paths:
+            g = ok_gas(r.ret)
+            if g is None or r.cut:
+                continue
+            gtxt = c15.render_deep(g)
+            if g == ('sym', 'arg3'):
+                n_min += 1
+                zero = {}
+                for (sv, lit, _f, _b) in r.lits:
+                    t_ = c15.render_deep(sv)
+                    if sv[0] == 'bin' and sv[1] == 'Eq' and sv[3] == K(0) and 'right_pad_with_offset(' in t_:
+                        for off in (0, 32, 64):
+                            if (', %d))))' % off) in t_:
+                                zero[off] = lit_truth(lit)
+                if not (zero.get(0) is True and zero.get(64) is True):
+                    problems.append('the flat minimum is charged without base_len == 0 and mod_len == 0 both established (tested: %s): a call with an empty modulus and a long base escapes the pricing formula and the out-of-gas test' % {k_: v for k_, v in zero.items()})
+            elif gtxt.startswith('call_once(arg4'):
+                n_formula += 1
+                order = [gtxt.find(', %d))))' % off) for off in (0, 32, 64)]
+                if -1 in order or order != sorted(order):
+                    problems.append('calc_gas does not receive (base_len, exp_len, mod_len) from the length words at 0 / 32 / 64')
+            else:
+                problems.append('a successful return charges %s' % gtxt[:80])
+        if not problems and not (n_formula and n_min):
+            problems.append('paths not recognised (formula=%d, minimum=%d)' % (n_formula, n_min))
+        if problems:
+            rep.violation('R4-modexp', 'run_inner', 'modexp::run_inner: ' + sorted(set(problems))[0], f.where())
+        else:
+            rep.ok('R4-modexp', 'run_inner', 'calc_gas(base, exp, mod) on %d paths; minimum only for empty base and modulus' % n_formula)
     # wrappers: min gas and pricing function per fork
     for wname, min_gas, calc in (('byzantium_run', 0, 'byzantium_gas_calc'), ('berlin_run', 200, 'berlin_gas_calc')):
         f = fx.fns.get(M + wname)
